@@ -17,11 +17,9 @@ Open Scope Z_scope.
 
 Definition iso_bad (E1 E2 : list (Z * Z)) (u1 u2 v1 v2 : Z) : bool :=
   negb (eqb (has_edge E1 u1 u2) (has_edge E2 v1 v2)).
-Definition iso_mk (n2 : Z) (u1 u2 v1 v2 : Z) : list ir :=
-  [IClause [- mvar 0 n2 u1 v1; - mvar 0 n2 u2 v2]; IClause [- mvar 0 n2 u1 v2; - mvar 0 n2 u2 v1]].
 Definition iso_ir (n1 : Z) (E1 : list (Z * Z)) (n2 : Z) (E2 : list (Z * Z)) : list ir :=
   um_complete 0 n1 n2 ++ um_surjective 0 n1 n2 ++ um_functional 0 n1 n2 ++ um_injective 0 n1 n2
-  ++ cons_clauses (iso_bad E1 E2) (iso_mk n2) n1 n2.
+  ++ cons_clauses (iso_bad E1 E2) (pair_mk 0 n2 false) n1 n2.
 Definition iso_numvar (n1 n2 : Z) : Z := n1 * n2.
 
 Definition auto_ir (n : Z) (E : list (Z * Z)) : list ir :=
